@@ -66,12 +66,25 @@ def nontrivial(sim, sc, obs):
     return sim.max_runnable >= 2 and obs['peak'] * 2 >= obs['bound']
 
 
+# Invocation meter for the process executor. The simulated worker processes are threads of this interpreter (sim/osproc.py), so a
+# module global is visible to all of them; only one thread runs at a time (baton), so plain increments are exact.
+PROC_METER = {'running': 0, 'max': 0, 'calls': 0}
+
+
 def proc_fn(x, delays=None, **kw):
-    if delays:
-        d = delays[x % len(delays)]
-        if d:
-            time.sleep(d)
-    return x + streams.PAR_ADD
+    m = PROC_METER
+    m['running'] += 1
+    m['calls'] += 1
+    if m['running'] > m['max']:
+        m['max'] = m['running']
+    try:
+        if delays:
+            d = delays[x % len(delays)]
+            if d:
+                time.sleep(d)
+        return x + streams.PAR_ADD
+    finally:
+        m['running'] -= 1
 
 
 def run(sim, sc):
@@ -112,6 +125,7 @@ def run(sim, sc):
         it = iter(s_final)
         conc = sc['c']
     else:
+        PROC_METER.update(running=0, max=0, calls=0)
         it = iter(s.parmap(proc_fn, executor='process', concurrency=sc['c'], delays=sc['fn_delays']))
         conc = None
     got = []
@@ -153,6 +167,14 @@ def run(sim, sc):
         sim.violation('result:wrong-output', {'got': got[:10]})
     if conc is not None and fn.max_running > conc:
         sim.violation('concurrency:more-invocations-running-than-concurrency', {'max_running': fn.max_running, 'concurrency': conc})
+    if kind == 'parmap_process':
+        if PROC_METER['max'] > sc['c']:
+            sim.violation('concurrency:more-invocations-running-than-concurrency:process-executor',
+                          {'max_running': PROC_METER['max'], 'concurrency': sc['c']})
+        if PROC_METER['running']:
+            sim.violation('concurrency:invocations-still-running-after-the-iterator-was-closed:process-executor', {'running': PROC_METER['running']})
+        if PROC_METER['max'] == sc['c'] and sc['c'] > 1:
+            sim.count('concurrency_saturated_process')
     if state['peak'] == bound:
         sim.count('peak_reached_bound')
     if conc is not None and fn.max_running == conc and conc > 1:
